@@ -799,8 +799,8 @@ func (w *world) call(ci callInfo, f func() error) error {
 	for _, o := range obs {
 		r.Count("reader_observations", 1)
 		if o.P.dr() {
-			// every publish carries a newer id: one reader never sees the served id go back
-			if o.P.ID < maxSeen {
+			// observations are recorded on change only and every change carries a newer id
+			if o.P.ID <= maxSeen {
 				r.Violation("state-id-reused:reader-saw-older-id-again", fmt.Sprintf("a concurrent reader saw state id %d after it had seen %d", o.P.ID, maxSeen), wit())
 			}
 			maxSeen = o.P.ID
